@@ -512,8 +512,8 @@ def divide_outputs(
                 break
 
             try:
-                for d, x in result.items():
-                    mailboxes[d].send(x)
+                for d in outputs:
+                    mailboxes[d].send(result[d])
             except Exception as e:
                 # Inform the source we're going down
                 source.throw(e)
